@@ -371,6 +371,34 @@ def direct_types(ctx, rng, n):
         shutil.rmtree(tmpdir, ignore_errors=True)
 
 
+def text_streams(ctx):
+    """A stream that is not binary (its read() gives str) is not an input kind: every type raises on it -- none returns a
+    value made of code points, none spins on the empty string that marks its end."""
+    text = "enum E : uint16 { EA, EB = 5 };\nstruct S { uint8 a; uint24 b; };\nstruct Z { char s[]; uint8 t; };\nunion DU { char s[]; uint8 b; };"
+    cs = lib.load(text)
+    kinds = {"uint8": cs.uint8, "uint32": cs.uint32, "int24": cs.int24, "double": cs.double, "char": cs.char, "char[3]": cs.char[3],
+             "char[]": cs.char[None], "wchar[]": cs.wchar[None], "uleb128": cs.uleb128, "ileb128[]": cs.ileb128[None],
+             "enum": cs.E, "struct": cs.S, "struct-with-char[]": cs.Z, "dynamic-union": cs.DU, "uint16[2]": cs.uint16[2]}
+    for name, T in kinds.items():
+        for content in ("abc\x00def\x00", "a", "", "\x01\x02\x03\x04\x05\x06\x07\x08\x09"):
+            ctx.evaluation(("text-stream", name, content))
+            ctx.cell("text-mode-stream")
+            try:
+                with engine.guard():
+                    v = T(io.StringIO(content))
+                res = ("value", repr(v)[:80])
+            except engine.ParseAbandoned:
+                res = ("spins", None)
+            except Exception as e:  # noqa: BLE001
+                res = ("raises", type(e).__name__)
+            if res[0] != "raises":
+                ctx.violation("forms", "text-mode-stream-" + ("is-parsed-as-if-its-characters-were-bytes" if res[0] == "value"
+                                                               else "makes-the-reader-spin"),
+                              {"type": name, "content": repr(content), "got": res[1], "workload": "text-streams"})
+            else:
+                ctx.event("text_streams_refused")
+
+
 def char_shortcut(ctx):
     """T(b) for a structure whose only field is char[n] and len(b) == n is value construction (by design);
     it must agree with parsing on value and dump."""
@@ -391,6 +419,7 @@ def char_shortcut(ctx):
 def run(ctx):
     if ctx.shard == 0:
         char_shortcut(ctx)
+        text_streams(ctx)
     if ctx.shard % 4 == 2:
         direct_types(ctx, ctx.rng("direct"), 2 if not ctx.thorough else 25)
     if ctx.shard % 4 == 1:
